@@ -215,7 +215,9 @@ def check_open(path, i, nfiles, ref, case, tags, opener=None):
     try:
         ds = opener(path) if opener else dclab.new_dataset(path)
         try:
-            for j in range(nfiles):
+            # every feature is asked for twice on the same open dataset:
+            # what the first access refuses, the second must refuse too
+            for j in [jj for jj in range(nfiles)] * 2:
                 feat = FEATS[j]
                 if j in unconstrained and j not in got_ref:
                     continue
@@ -349,6 +351,44 @@ def _id_case(args):
                 finally:
                     os.chdir(here)
                 cnt += 1
+            finally:
+                shutil.rmtree(d, ignore_errors=True)
+    return cnt, out
+
+
+def _remote_id_case(args):
+    """One remote edge f0 -> f1 (http / s3 / dcor), reachable, for all
+    4 x 4 assignments of run identifiers x unmapped / mapped: the
+    identifier rule decides whether f1's feature is offered - on the first
+    access and on every later one."""
+    fmt, scratch = args
+    out = []
+    cnt = 0
+    edges = [(0, 1)]
+    for ids in itertools.product(list(IDS), repeat=2):
+        for mp in ((), ((0, 1),)):
+            d = _mkdir(scratch, f"rid{fmt}")
+            case = {"kind": "remote-ids", "fmt": fmt, "ids": list(ids),
+                    "mapped": bool(mp)}
+            tags = {"kind": "remote-ids", "fmt": fmt, "mapped": bool(mp),
+                    "basin_id_missing": ids[1] == "missing"
+                    and ids[0] != "missing"}
+            try:
+                host = fakehttp.FakeHost()
+                paths = write_graph(d, 2, edges, ids=list(ids), mapped=mp,
+                                    remote_host={(0, 1): fmt})
+                for b_, p_ in enumerate(paths):
+                    for f_ in ("http", "s3"):
+                        host.add(remote_url(f_, b_), p_.read_bytes())
+                    host.add_dcor(remote_url("dcor", b_), dcor_answers(p_))
+                ref = reference(2, edges, list(ids), mp)
+                with fakehttp.installed(host, s3=True):
+                    out += check_open(paths[0], 0, 2, ref, case, tags)
+                cnt += 1
+            except BaseException as e:
+                out.append(violation(CORE, "exception", case,
+                                     f"{type(e).__name__}: {e}",
+                                     dict(tags, exc=type(e).__name__)))
             finally:
                 shutil.rmtree(d, ignore_errors=True)
     return cnt, out
@@ -707,6 +747,8 @@ def run(ctx):
     res += par.pmap(_id_case, iitems)
     res += par.pmap(_restrict_case, [(sh, scratch) for sh in SHAPES
                                      if sh not in BIG_SHAPES])
+    res += par.pmap(_remote_id_case, [(f_, scratch)
+                                      for f_ in ("http", "s3", "dcor")])
     res += par.pmap(_remote_case, [(v, scratch) for v in (
         "remote-chain", "http-open", "remote-unreachable",
         "s3-chain", "dcor-chain", "s3-open", "dcor-open",
@@ -748,6 +790,9 @@ def run(ctx):
 
 
 def replay(case, ctx):
+    if case.get("kind") == "remote-ids":
+        return [v for v in _remote_id_case((case["fmt"], ctx.scratch))[1]
+                if v["case"] == case]
     if case["kind"] == "topology":
         pairs = list(itertools.product(range(case["nfiles"]), repeat=2))
         bits = sum(1 << k for k, p in enumerate(pairs)
